@@ -7,7 +7,7 @@ Extraction Blacklist String.
 Separate Extraction
   enc_len dec_len utf8_valid
   GroupDataExt.serialize GroupDataExt.deserialize GroupDataExt.wf GroupDataExt.roundtrip_ok
-  Contract.empty Contract.step Contract.run
+  Contract.empty Contract.step Contract.run Contract.reopen
   Contract.upd_ptr Contract.ptr_of Engine.init_client Engine.join_client Engine.deliver Engine.committed Engine.merge_pending Engine.clear_pending Engine.sent Engine.sent_as Engine.leave_created Engine.restart Engine.restart_with AMap.aget
   Keyring.open_db Keyring.mode_after Keyring.created_dir_modes
   Welcome.process_welcome Welcome.accept_welcome Welcome.decline_welcome Welcome.note_message Welcome.evict Welcome.self_updated Welcome.empty_st
